@@ -118,7 +118,11 @@ def analyse(repo: Repo, tier: str = "quick") -> List[Rec]:
         for o in h.ops:
             if o in (EWHOM_OPS - {"aten.neg"}) | COMPARE_OPS:
                 if any(isinstance(n, ast.Attribute) and n.attr == "_data" for n in ast.walk(h.fn)):
-                    SIGN_DEPENDANTS.add(o)
+                    # a handler that tests the sign of the scales itself before it touches the codes (`(x._scale > 0).all()`) depends on nothing
+                    own_guard = any(isinstance(n, ast.Compare) and len(n.ops) == 1 and isinstance(n.ops[0], ast.Gt) and U(n.left).endswith("._scale") and U(n.comparators[0]) in ("0", "0.0")
+                                    for n in ast.walk(h.fn))
+                    if not own_guard:
+                        SIGN_DEPENDANTS.add(o)
 
     def R(pid, rule, verdict, h: Handler, node_line, tag, detail, witness=""):
         recs.append(Rec(pid, rule, verdict, f"{h.mi.rel}:{node_line}", h.name, tag, detail, witness))
@@ -375,6 +379,17 @@ def _check_reissue(R, h: Handler, hp: HPath, call: ast.Call, line, fallback: boo
         if x in kw_got:
             got.append(kw_got.pop(x))
     kw_want = {"**": ("name", fn.args.kwarg.arg)} if fn.args.kwarg is not None else {}
+    # keyword-only parameters of the handler travel by keyword under their own name; one known to be None on this path may be left out
+    for a_ in fn.args.kwonlyargs:
+        if kw_got.get(a_.arg) == ("name", a_.arg):
+            kw_got.pop(a_.arg)
+        elif a_.arg not in kw_got and hp.fact(f"{a_.arg} is None") is not True and hp.fact(f"{a_.arg} is not None") is not False:
+            kw_got[a_.arg] = ("missing",)
+    # `*args` known to be empty on this path (`len(args) > 0` is false) need not be forwarded
+    if fn.args.vararg is not None and ("star", ("name", fn.args.vararg.arg)) not in got:
+        va = fn.args.vararg.arg
+        if any(hp.fact(t_) is False for t_ in (f"len({va}) > 0", f"len({va}) != 0", va, f"len({va}) >= 1")) or hp.fact(f"len({va}) == 0") is True or hp.fact(f"not {va}") is True:
+            want = [w for w in want if w != ("star", ("name", va))]
     # a parameter rebound to its own dequantized / requantized form keeps its place (e.g. src = Quantizer.apply(src, ...))
     ok = len(got) == len(want) and kw_got == kw_want
     if ok:
@@ -447,12 +462,16 @@ def _check_ctor(repo, R, h: Handler, hp: HPath, f, line, tparams, ops):
             R("C05", "C05.R4", "ok" if ok and guard else "bad", h, line, f"scale-only {sorted(ops)} scale term",
               f"scalar rescaling keeps the payload and sets scale = {stxt} (expected {show(want[0]) if want else '?'}); is_scalar({o}) on path={guard}",
               f"{x} {'/' if 'aten.div' in ops else '*'} c for a scalar c" if guard else f"a non-scalar {o}")
-            sign = any(hp.fact(g) is True for g in (f"{o} > 0", f"{o} >= 0", f"0 < {o}", f"0 <= {o}")) or any(hp.fact(g) is False for g in (f"{o} < 0", f"{o} <= 0"))
+            # strictly positive when a dependant COMPARES raw codes (lt): under a null scale every value is zero while the codes still differ
+            strict = any(hp.fact(g) is True for g in (f"{o} > 0", f"0 < {o}")) or hp.fact(f"{o} <= 0") is False
+            weak = strict or any(hp.fact(g) is True for g in (f"{o} >= 0", f"0 <= {o}")) or hp.fact(f"{o} < 0") is False
+            sign = strict if (SIGN_DEPENDANTS & COMPARE_OPS) else weak
             dependants = sorted(SIGN_DEPENDANTS)
             if dependants:
                 R("C05", "C05.R12", "ok" if sign else "bad", h, line, f"scale sign after {sorted(ops)[0]} by scalar",
-                  f"scale := {stxt} with a scalar `{o}` of {'guarded' if sign else 'unknown'} sign, while {dependants} operate on raw payloads assuming a positive scale",
-                  f"{sorted(ops)[0].split('.')[-1]} by a negative scalar followed by {dependants[0].split('.')[-1]} (e.g. relu(q * -1.0))")
+                  f"scale := {stxt} with a scalar `{o}` of {'guarded' if sign else ('non-negative only' if weak else 'unknown')} sign, while {dependants} operate on raw payloads assuming a positive scale",
+                  f"{sorted(ops)[0].split('.')[-1]} by a negative scalar followed by {dependants[0].split('.')[-1]} (e.g. relu(q * -1.0))" if not weak else
+                  "(qa * 0) < (qb * 0): both products keep their codes under a null scale and `lt` compares the codes (13 True out of 24 where every value is zero)")
             _c06_fields(R, h, hp, f, line, x, ops, reshaping=False)
             return
     # JOIN: data = op([a._data, b._data], dim)
